@@ -51,7 +51,9 @@ def gen_float(rng):
 
 def gen_string_piece(rng, is_bytes):
   body = rng.choice(['', 'a', 'hello world', 'it\\\'s', 'tab\\there', 'raw\ttab', '\t', 'q\\"q', '\\\\', '#not a comment', 'x' * 30,
-                     '\\x41', '\\n', "'" if rng.random() < 0.5 else '"'])
+                     '\\x41', '\\n', "'" if rng.random() < 0.5 else '"',
+                     # backslash sequences Python does not know: kept as written (Python only warns about them)
+                     '\\d+\\.\\d*', 'a\\ b', '\\w', '\\400', 'C:\\path\\q', '\\%s'])
   quote = rng.choice(["'", '"', "'''", '"""'])
   if quote[0] in body and '\\' + quote[0] not in body:
     body = body.replace(quote[0], '')
@@ -129,7 +131,14 @@ def gen_lit(rng, depth=0, stats=None):
   if kind == 'paren':
     return '(' + t() + gen_lit(rng, depth + 1, stats) + t() + ')'
   if kind == 'dict':
-    keys = rng.sample(['2', '3', "'k'", "'j'", 'None', '(4, 5)', "b'k'", '2.5', '-7'], min(n, 4))
+    if rng.random() < 0.25:
+      # keys that repeat, or compare equal across types or only after evaluation: Python keeps the first key and the
+      # last value
+      pool = rng.choice([['1', 'True', '1.0', '1'], ['0', '-0', 'False', '0.0'], ["'ab'", "'a' 'b'", '"ab"'],
+                         ["'k'", "'k'", '2', '2'], ['(1, 2)', '(1, 2)', '(1, 2.0)'], ["b'k'", "b'k'", "'k'"]])
+      keys = [rng.choice(pool) for _ in range(max(2, min(n, 4)))]
+    else:
+      keys = rng.sample(['2', '3', "'k'", "'j'", 'None', '(4, 5)', "b'k'", '2.5', '-7'], min(n, 4))
     items = [k + t() + ':' + t() + gen_lit(rng, depth + 1, stats) for k in keys]
     opener, closer = '{', '}'
   else:
@@ -179,9 +188,12 @@ def gen_cases(rng, tier, boost=1):
 
 
 def run_impl(case):
+  import warnings
   out = parsedom.impl_statements(case['text'])
   try:
-    v = ast.literal_eval(case['value_text']) if case['kind'] == 'lit' else None
+    with warnings.catch_warnings():
+      warnings.simplefilter('ignore')     # Python's own remark about an unknown backslash sequence
+      v = ast.literal_eval(case['value_text']) if case['kind'] == 'lit' else None
     out['python'] = {'v': parsedom.enc_pval(v, None)} if case['kind'] == 'lit' else None
   except Exception as e:  # pylint: disable=broad-except
     out['python'] = {'err': type(e).__name__}
